@@ -68,6 +68,13 @@ let fsm_case (delay_open : bool) (hold : int) (ap : String.t) (steps : String.t)
             (match wmsg_of (if cur.s_conn then cur.s_sc else sc_modern) (bytes_of_hex h) 0 with
              | Some m -> tick_msg cur m
              | None -> (upd_st (upd_conn cur false) SConnect, OErr))
+          | ["U"; n; h] ->
+            let rec go k st = if k = 0 then (st, ODone) else
+                (match wmsg_of (if st.s_conn then st.s_sc else sc_modern) (bytes_of_hex h) 0 with
+                 | Some m -> (match handle_msg st m with (st', ODone) -> go (k - 1) st' | r -> r)
+                 | None -> (st, OErr)) in
+            go (int_of_string n) cur
+          | ["A"; _] -> attach_stream cur          (* the octets only make the new socket readable *)
           | ["c"] | ["c"; _] -> (upd_st (upd_conn (push_app cur AConnLost) false) SConnect, ODone)
           | _ -> failwith "step" in
         s := s';
